@@ -31,7 +31,7 @@ OnCase(e) ==
   LET cfg  == [role |-> e.cfg.role, verify |-> e.cfg.verify, ownCert |-> e.cfg.ownCert, ca |-> e.cfg.ca,
                name |-> e.cfg.name]
       cred == [class |-> e.cred.class, send |-> e.cred.send, ver |-> e.cred.ver, sni |-> e.cred.sni]
-      typed == /\ cfg \in Cfgs /\ cred \in Creds(cfg.role) /\ e.startup \in {"ready", "reject", "disabled"}
+      typed == /\ cfg \in Cfgs /\ cred \in Creds(cfg.role) /\ e.after \in Envs(cfg) /\ e.startup \in {"ready", "reject", "disabled"}
                /\ e.proxy.hs \in BOOLEAN /\ e.proxy.byte \in BOOLEAN /\ e.peer.hs \in BOOLEAN /\ e.peer.byte \in BOOLEAN
                /\ (e.startup # "ready" => ~e.proxy.hs /\ ~e.proxy.byte /\ ~e.peer.byte)
       started  == e.startup = "ready"
